@@ -404,7 +404,7 @@ func (mon) Plan(prop, tier string, seed int64) []drv.Shard {
 	a, _ := json.Marshal(shardArgs{Kind: "spell"})
 	out = append(out, drv.Shard{Name: "spell", Args: a})
 	for i, gmp := range []string{"4", "16"} {
-		a, _ := json.Marshal(shardArgs{Kind: "conc", Part: i, Count: nrand / 400})
+		a, _ := json.Marshal(shardArgs{Kind: "conc", Part: i, Count: min(nrand/400, 2000)})
 		out = append(out, drv.Shard{Name: "conc-gomaxprocs" + gmp, Args: a, Env: []string{"GOMAXPROCS=" + gmp}})
 	}
 	for p := 0; p < parts; p++ {
